@@ -53,7 +53,7 @@ package domainmatcher
 //@ func (m *DomainMatcher) Add(labels [][]byte)
 //@   props C11
 //@   requires m != nil
-//@   modifies *
+//@   modifies field(domainmatcher.labelNode), field(domainmatcher.DomainMatcher), field(domainmatcher.RegexpMatcher), maps(domainmatcher.labelNode)
 //@   loop 1:
 //@     invariant currentNode != nil && -1 <= i && i < len(labels)
 //@     decreases i + 1
@@ -93,26 +93,52 @@ package domainmatcher
 //@   modifies nothing
 //@   ensures ok == mmatch(m, n)
 
+//@ spec func mixOK(m *MixMatcher) bool = m != nil && m.full != nil && m.full.m != nil && m.domain != nil && m.regexp != nil
 //@ func NewMixMatcher() (m *MixMatcher)
 //@   trusted
 //@   modifies nothing
-//@   ensures m != nil && fresh(m)
-//@ func (m *MixMatcher) Add(rule []byte) (err error)
+//@   ensures m != nil && fresh(m) && mixOK(m) && fresh(m.full) && fresh(m.full.m) && fresh(m.domain) && fresh(m.regexp)
+//@ func (m *RegexpMatcher) Add(exp string) (err error)
 //@   trusted
 //@   requires m != nil
-//@   modifies pkgheaps(domain_matcher)
+//@   modifies field(domainmatcher.labelNode), field(domainmatcher.DomainMatcher), field(domainmatcher.RegexpMatcher), maps(domainmatcher.labelNode)
+
+// MixMatcher.Add: the text after the optional "type:" prefix reaches the name parser octet for octet (a sub-slice
+// of the rule, never a transformed copy); what was parsed is lower-cased by dnsmsg.ToLowerName (ASCII A-Z only, the
+// folding queries get) exactly once before it is inserted; unknown types are an error.
+//@ func (m *MixMatcher) Add(rule []byte) (err error)
+//@   props C11
+//@   requires m != nil && m.full != nil && m.full.m != nil && m.domain != nil && m.regexp != nil
+//@   ghost nLow int = 0
+//@   ghost nParse int = 0
+//@   ghost nIns int = 0
+//@   oncall ToLowerName?: nLow = nLow + 1
+//@   oncall ParseReadable?: nParse = nParse + 1
+//@   oncall Add?: nIns = nIns + 1
+//@   modifies field(domainmatcher.labelNode), field(domainmatcher.DomainMatcher), field(domainmatcher.RegexpMatcher), maps(domainmatcher.labelNode), obj(m.full.m)
+//@   noterm
+//@   ensures [C11:parsed-names-are-ascii-lowered-once] nParse <= 1 && (err == nil && nParse == 1 ==> nLow == 1)
+//@   ensures [C11:one-entry-per-rule] err == nil ==> nIns == 1
+//@   callsite ParseReadable?: [C11:entry-octets-verbatim] within(arg1, rule) || len(arg1) == 0
+//@   callsite ToLowerName?: [C11:lowers-the-parsed-name] nParse == 1
+//@   callsite Add?: [C11:inserted-after-lowering] arg0 == m.regexp || nLow == 1
+//@   loop 1:
+//@     modifies scanner.label, scanner.labelOff, scanner.off, scanner.err, obj(labels)
+//@     invariant 0 <= scanner.off && scanner.off <= len(scanner.n)
+//@     invariant loopFresh(labels) || sameObj(labels, loopOld(labels))
 
 // The loader: what reaches MixMatcher.Add is the line with its '#' comment cut off and then trimmed: never empty,
 // never containing '#', never starting or ending with white space; blank and comment-only lines add nothing.
 //@ func LoadMixMatcherFromReader(m *MixMatcher, r io.Reader) (err error)
 //@   props C11
-//@   requires m != nil
-//@   modifies pkgheaps(domain_matcher)
+//@   requires mixOK(m)
+//@   modifies field(domainmatcher.labelNode), field(domainmatcher.DomainMatcher), field(domainmatcher.RegexpMatcher), maps(domainmatcher.labelNode), obj(m.full.m)
 //@   noterm -- reading ends when the reader does (bufio.Scanner); not a property of this code
 //@   callsite Add?: [C11:entry-is-the-uncommented-trimmed-line] len(arg1) > 0 && forall(j, 0, len(arg1), arg1[j] != '#')
 //@             && !asciiSpace(arg1[0]) && !asciiSpace(arg1[len(arg1)-1])
 //@   loop 1:
-//@     modifies pkgheaps(domain_matcher)
+//@     modifies field(domainmatcher.labelNode), field(domainmatcher.DomainMatcher), field(domainmatcher.RegexpMatcher), maps(domainmatcher.labelNode), obj(m.full.m)
+//@     invariant mixOK(m)
 //@ func (m *MixMatcher) Len() (n int)
 //@   trusted
 //@   modifies nothing
